@@ -32,7 +32,16 @@ def one(d):
     shutil.rmtree(root, ignore_errors=True)
     return tag, pid, '%s rc=%d %s' % (status, r.returncode, (msg[0][:160] if msg else ''))
 
+results = {}
 with concurrent.futures.ThreadPoolExecutor(max_workers=4) as ex:
     for tag, pid, res in ex.map(one, dirs):
         print(tag, pid, res, flush=True)
+        results[tag] = res
+        if '--record' in sys.argv:
+            mp = os.path.join(V, 'seeded', tag, 'meta.json')
+            meta = json.load(open(mp))
+            meta['detected_by'] = [{'check': './check %s --tier quick' % pid, 'result': res}]
+            json.dump(meta, open(mp, 'w'), indent=1)
+if '--record' in sys.argv:
+    json.dump(results, open(os.path.join(V, 'seeded', 'RESULTS.json'), 'w'), indent=1, sort_keys=True)
 shutil.rmtree(SCR, ignore_errors=True)
